@@ -61,7 +61,8 @@ def observe(pel, focus, plugins, beh, family, expect_canon='', c18=False, pel_ok
     del log[:]
     before = seams.plugin_modules_loaded()
     data = encode.encode(pel)
-    res = pelrun.decode_cli(data, plugins) if via_cli else pelrun.decode(data, plugins, allow_proc=True)
+    res = pelrun.decode_cli(data, plugins) if via_cli else \
+        pelrun.decode(data, plugins, allow_proc=True, hexcfg=(len(data) + focus) % 4 == 1)
     after = seams.plugin_modules_loaded()
     imports = [n for n in log if n.split('.')[0] == 'udparsers']
     calls = [dict(name=c[1], sub=c[2], ver=c[3], payload=list(c[4])) for c in verif_fixture.CALLS if c[0] == 'ud']
